@@ -25,6 +25,8 @@ MACROS = r"""
 (define-syntax inc-all! (syntax-rules () ((_ v ...) (begin (set! v (+ v 1)) ...))))
 (define-syntax my-case2 (syntax-rules (otherwise) ((_ e (otherwise r)) r) ((_ e (v r)) (if (= e v) r 'no-match))))
 (define-syntax def-lister (syntax-rules () ((_ name v) (define-syntax name (syntax-rules () ((_) (list v v)))))))
+(define-syntax call-later (syntax-rules () ((_ e) (later-helper e))))
+(define-syntax later-ref (syntax-rules () ((_) later-value)))
 (define-syntax er-or2 (er-macro-transformer (lambda (form rename compare)
   (let ((a (cadr form)) (b (car (cddr form))))
     (list (rename 'let) (list (list (rename 't) a)) (list (rename 'if) (rename 't) (rename 't) b))))))
@@ -36,7 +38,18 @@ MACROS = r"""
     (list (r 'let) (list (list t a)) (list (r 'if) t t b))))))
 """
 
+# top-level definitions that come AFTER every program has been compiled: the templates above refer to them forward
+LATE = "(define (later-helper x) (+ x 200))\n(define later-value 77)\n"
+
 FALSE = N(["const", ["b", 0]], "#f")
+
+
+def m_later(e):
+    return N(prim("+", e, I(200)).core, "(call-later %s)" % e.scm)
+
+
+def m_later_ref():
+    return N(I(77).core, "(later-ref)")
 
 
 def m_or2(name, a, b):
@@ -131,6 +144,8 @@ def bodies(rng, u):
     d1, use1 = m_def_lister("lgone", u[1])
     d2, use2 = m_def_lister("lgtwo", u[3])
     out.append([d1, d2, emit(use1), emit(use2), emit(m_or2("my-or2", FALSE, use1))])
+    # free identifiers of a template whose top-level definitions come after the use has been compiled
+    out.append([emit(m_later(U[0])), emit(prim("+", m_later_ref(), U[1])), emit(m_later(m_or2("my-or2", FALSE, U[2])))])
     # combinations: macro uses nested in macro uses
     out.append([emit(m_or2("my-or2", m_or3([FALSE, FALSE]), m_helper(U[0]))), emit(m_repeat(2, m_swap(u[0], u[1]))), emit(prim("list", U[0], U[1]))])
     out.append([emit(m_let1(u[3], m_or2("my-or2", FALSE, U[1]), m_lists([[U[3], m_get7()], [m_helper(U[3])]])))])
@@ -141,7 +156,24 @@ def bodies(rng, u):
 # procedures (none of them is written by the user code inside the scope of the renamed variables)
 POOL = ["t", "tmp", "loop", "i", "helper", "x", "a", "b", "e", "r", "n", "body", "name", "val", "v",
         "if", "let", "set!", "begin", "list", "define", "define-syntax", "syntax-rules", "quote", "cond", "else", "or", "and", "not", "car", "cons", "<",
-        "form", "rename", "compare", "env", "lm", "get7", "my-or2", "swap!", "otherwise"]
+        "form", "rename", "compare", "env", "lm", "get7", "my-or2", "swap!", "otherwise", "later-helper", "later-value"]
+
+
+_MSYMS = {}
+
+
+def macro_symbols():
+    """{macro name: symbols written by its definition} for the catalogue's define-syntax forms (and forms that define macros)"""
+    if not _MSYMS:
+        import sexpr
+        for form in sexpr.parse_all(MACROS + LATE):
+            if form[0] == "list" and len(form[1]) >= 2 and form[1][0][0] == "sym":
+                head = form[1][0][1]
+                if head == "define-syntax" and form[1][1][0] == "sym":
+                    _MSYMS[form[1][1][1]] = sexpr.symbols(form)
+                elif head not in ("define",) and form[1][1][0] == "sym":          # (def-getter get7 7): a macro-defining use
+                    _MSYMS[form[1][1][1]] = sexpr.symbols(form) | _MSYMS.get(head, set())
+    return _MSYMS
 
 
 def rename(node, mapping):
@@ -194,13 +226,30 @@ def run():
                     continue
                 others = [q for q in pool if q != p]
                 rens.append(dict(zip(u, [p] + rng.sample(others, 3))))
+            # the names written by the definitions of the macros THIS body uses (template temporaries, free identifiers,
+            # literals, pattern variables): each of them for each of the user variables, deterministically
+            hot = set()
+            for mname, syms in macro_symbols().items():
+                if mname in used:
+                    hot |= syms
+            for h in sorted(hot & set(pool)):
+                for k in range(4):
+                    others = rng.sample([q for q in pool if q != h], 3)
+                    tgt = others[:k] + [h] + others[k:]
+                    rens.append(dict(zip(u, tgt)))
             for ri, mp in enumerate(rens):
                 pid += 1
                 progs.append((pid, rename(base, mp)))
                 kinds[pid] = "shape%d" % si
                 groups[pid] = (si, mp)
         extra_defs = "(import (only (chibi) er-macro-transformer sc-macro-transformer rsc-macro-transformer make-syntactic-closure))\n" + MACROS
-        results = cc.run_all(build, sc, progs, "c07", extra_defs=extra_defs, batch=40)
+        # programs that use a forward-referenced free identifier run ALONE (one interpreter each): only the first compiled use of
+        # such an identifier creates its top-level cell, so in a shared file all but the first renaming would see it already bound
+        solo = [(i, n) for i, n in progs if "call-later" in n.scm or "later-ref" in n.scm]
+        rest = [(i, n) for i, n in progs if not ("call-later" in n.scm or "later-ref" in n.scm)]
+        results = cc.run_all(build, sc, rest, "c07", extra_defs=extra_defs, batch=40, late_defs=LATE)
+        results.update(cc.run_all(build, sc, solo, "c07solo", extra_defs=extra_defs, batch=1, late_defs=LATE))
+        chk.cov["programs_run_alone"] = len(solo)
         ok, bad, rs = cc.validate(sc, progs, results, "c07", cfg="CoreRunR2L.cfg")
         for r in rs:
             chk.cov["states"] += r.distinct
@@ -238,7 +287,7 @@ def hygiene_phase(chk, build, sc, rng):
     import collections, os
     import sexpr, hyggen
     Node = collections.namedtuple("Node", "scm core")
-    ncases = 400 if chk.thorough else 90
+    ncases = 400 if chk.thorough else 60
     nren = 8 if chk.thorough else 5
     cases, progs, pid = [], [], 0
     for c in range(ncases):
